@@ -1028,6 +1028,13 @@ class Builtin:
                  "sorted", "hex", "round"):
             if any(isinstance(a, Opaque) for a in args):
                 return Opaque(n)
+            for kw in ("key", "default"):
+                f_ = kwargs.get(kw)
+                if kw == "key" and isinstance(f_, (Closure, BoundMethod, Native, Builtin, PyMethod)):
+                    kwargs = dict(kwargs)
+                    kwargs["key"] = (lambda x, f_=f_: interp.apply(f_, [x], {}, node))
+            if n in ("sorted", "list", "tuple", "max", "min") and args and isinstance(args[0], USet):
+                args = [list(args[0])] + list(args[1:])
             try:
                 return __builtins__[n](*args, **kwargs) if isinstance(__builtins__, dict) else getattr(__builtins__, n)(*args, **kwargs)
             except Exception as e:
